@@ -68,6 +68,7 @@ class LasAppender:
 
         self.closefd = closefd
         self.encoding_errors = encoding_errors
+        self.closed = False
 
         # the EVLRs are written back when the appender is closed: like the header,
         # what cannot be written back is refused now, before anything is appended
@@ -83,6 +84,9 @@ class LasAppender:
 
         :param points: The points to append
         """
+        if self.closed:
+            raise LaspyException("Cannot append points anymore, the appender is closed")
+
         if not points:
             return
 
@@ -130,6 +134,9 @@ class LasAppender:
                 points.X, points.Y, points.Z = saved_X, saved_Y, saved_Z
 
     def close(self) -> None:
+        if self.closed:
+            # everything was written back by the first close
+            return
         try:
             self.points_appender.done()
             self._write_evlrs()
@@ -137,6 +144,7 @@ class LasAppender:
         finally:
             # the destination is released as asked even when it
             # refused the last writes
+            self.closed = True
             if self.closefd:
                 self.dest.close()
 
